@@ -216,7 +216,7 @@ def step (st : St) (line : String) : St × Verdict :=
     match mkMsg? i s r p g, kv [crash] "crash", (kv [pub] "pub").bind parsePubs, (kv [wal] "wal").bind parseMsgs with
     | some m, some crash, some pubs, some wal =>
       if m.inst < st.sys.floor then (st, .bad "generator: request below the floor") else
-      let c : Nat := if crash = "0" then 0 else if crash = "A" then 1 else 3
+      let c : Nat := if crash = "0" then 0 else if crash = "A" || crash = "T" then 1 else 3
       let s' := F3.Equiv.step st.sys (.broadcast m c)
       let (wire', orc) := wireOracle st.wire st.obsPurged false pubs
       let st' := { st with sys := s', wire := wire', obsWal := wal }
@@ -230,9 +230,10 @@ def step (st : St) (line : String) : St × Verdict :=
           let conflict := st.wire.any (fun w => w.slot == m.slot && w.sig != m.sig)
           let tag := if !pubs.isEmpty then (if st.wire.contains m then "bc_dup_allowed" else "bc_allowed")
                      else if crash = "A" then "bc_crash_before_record"
+                     else if crash = "T" then "bc_crash_torn_record"
                      else if conflict then "bc_denied_conflict"
                      else if st.wire.any (fun w => w.inst > m.inst) then "bc_denied_past" else "bc_denied_other"
-          (st', .ok (if crash = "0" || crash = "A" then tag else tag ++ "_crash" ++ crash))
+          (st', .ok (if crash = "0" || crash = "A" || crash = "T" then tag else tag ++ "_crash" ++ crash))
     | _, _, _, _ => (st, .bad "bc")
   | ["rb", i, r, p, "=>", pub] =>
     match i.toNat?, r.toNat?, p.toNat?, (kv [pub] "pub").bind parsePubs with
